@@ -6,7 +6,8 @@ Anything that depends on a symbolic input is one of the wrapper classes below.
 """
 import z3
 
-BV8 = z3.BitVecSort(8)
+BV8 = z3.IntSort()      # bytes are sequences of mathematical ints in 0..255 (range facts are
+                        # added where elements are created or extracted); no bit-vector theory
 BSEQ = z3.SeqSort(BV8)
 STR = z3.StringSort()
 REF = z3.DeclareSort("Ref")
@@ -19,12 +20,12 @@ class Sym(object):
 
 class SInt(Sym):
     """A mathematical integer (Python ints are unbounded, so this is exact).
-    `bv` is an optional bit-vector view: a z3 BitVec term t with BV2Int(t) == term."""
-    __slots__ = ("term", "bv")
+    `nbits`: when not None, the value is known to lie in [0, 2**nbits)."""
+    __slots__ = ("term", "nbits")
 
-    def __init__(self, term, bv=None):
+    def __init__(self, term, nbits=None):
         self.term = term
-        self.bv = bv
+        self.nbits = nbits
 
     def __repr__(self):
         return "SInt(%s)" % (self.term,)
@@ -164,14 +165,14 @@ def bytes_term(v):
     if isinstance(v, SBytes):
         return v.term
     if isinstance(v, (bytes, bytearray)):
-        return seq_of_elems([z3.BitVecVal(b, 8) for b in v])
+        return seq_of_elems([z3.IntVal(b) for b in v])
     raise TypeError("not bytes: %r" % (v,))
 
 
 def bytes_elems(v):
     """list of BV8 terms if the length is known concretely, else None"""
     if isinstance(v, (bytes, bytearray)):
-        return [z3.BitVecVal(b, 8) for b in v]
+        return [z3.IntVal(b) for b in v]
     if isinstance(v, SBytes):
         return v.elems
     return None
